@@ -60,3 +60,48 @@ Example C05_ex2 : store CellInt KFloat (PFloat (FFin true 3 0)) = Ok (VFlt (FFin
 Proof. vm_compute. reflexivity. Qed.
 Example C05_ex3 : store WholeSeq KInt (PFloat (FFin false 7 (-1))) = Ok (VInt 3).
 Proof. vm_compute. reflexivity. Qed.
+
+(* ---- the write-path skeletons on the regenerated dispatch kernels (Gen/KC05Paths.v) ---- *)
+From DM Require Import Gen.KC05Paths Model.C05Paths Proofs.C05PathsFacts.
+
+(* Scalar write paths routed through the translated exit chain of NumericColumn._tosequence, the translated
+   scalar test of BaseColumn._tosequence and the pinned IntColumn._tosequence store the normal form. *)
+Theorem C05_path_k_nf :
+  forall (p : path) (k : kind) (v : pyv), pyv_wf v = true -> res_eqv (store_k p k v) (nf k v) = true.
+Proof. exact path_k_nf. Qed.
+Print Assumptions C05_path_k_nf.
+
+(* A column object (of kind k2, handing out the cell raw) assigned by slice, by index list / selection, or as a
+   whole column stores the normal form of raw -- with type checking on.  FSetCol: the column takes the value's type. *)
+Theorem C05_colval_nf : forall (f : colform) (k k2 : kind) (raw : pyv),
+  pyv_wf raw = true -> raw_ok k2 raw = true ->
+  res_eqv (store_colval true f k k2 raw) (nf (result_kind f k k2) raw) = true.
+Proof. exact colval_nf. Qed.
+Print Assumptions C05_colval_nf.
+
+(* The translated guard of BaseColumn._setslicekey: raw storage is copied only when type checking is off and
+   the value is a column of exactly the same type. *)
+Theorem C05_setslice_fast_only : forall tc same, k_setslice_fast tc same = true -> tc = false /\ same = true.
+Proof. exact setslice_fast_only. Qed.
+Print Assumptions C05_setslice_fast_only.
+
+(* With the flag off, only a same-type column escapes the check; index-list writes never do. *)
+Theorem C05_colval_other_type_flag : forall (k k2 : kind) (raw : pyv),
+  kind_eqb k k2 = false -> store_colval false FSlice k k2 raw = store_colval true FSlice k k2 raw.
+Proof. exact colval_other_type_flag. Qed.
+Print Assumptions C05_colval_other_type_flag.
+
+Theorem C05_colval_seqkey_flag : forall (tc : bool) (k k2 : kind) (raw : pyv),
+  store_colval tc FSeqKey k k2 raw = store_colval true FSeqKey k k2 raw.
+Proof. exact colval_seqkey_flag. Qed.
+Print Assumptions C05_colval_seqkey_flag.
+
+(* non-vacuity: why the flag matters -- a same-type raw copy keeps 1.0 where the normal form is 1 *)
+Example C05_ex4 : store_colval false FSlice KMixed KMixed (PFloat (FFin false 1 0)) = Ok (VFlt (FFin false 1 0))
+                  /\ store_colval true FSlice KMixed KMixed (PFloat (FFin false 1 0)) = Ok (VInt 1).
+Proof. vm_compute. split; reflexivity. Qed.
+Example C05_ex5 : store_colval true FSetCol KInt KFloat (PFloat (FFin false 5 (-1))) = Ok (VFlt (FFin false 5 (-1)))
+                  /\ store_colval true FSlice KInt KFloat (PFloat (FFin false 5 (-1))) = Ok (VInt 2).
+Proof. vm_compute. split; reflexivity. Qed.
+Example C05_ex6 : store_k WholeScalar KFloat (PStr "x" None None) = Ok (VFlt FNan).
+Proof. vm_compute. reflexivity. Qed.
